@@ -527,11 +527,12 @@ class Interp:
             return Sym(f"dictcomp@{self.site(node)}<{it.key()}>", TypeRef(prim="ext:builtins.dict"))
         if len(gens) == 1 and not isinstance(node, ast.DictComp):
             it = self.eval(gens[0].iter, frame)
-            if isinstance(it, SeqVal) and isinstance(gens[0].target, ast.Name):
+            if isinstance(it, SeqVal) and (isinstance(gens[0].target, ast.Name) or (
+                    isinstance(gens[0].target, ast.Tuple) and all(isinstance(x, SeqVal) and len(x.items) == len(gens[0].target.elts) for x in it.items))):
                 out = []
                 sub = Frame(frame.fn, frame.module, {}, closure=frame, cls=frame.cls, self_val=frame.self_val)
                 for item in it.items:
-                    sub.locals[gens[0].target.id] = item
+                    self.assign(gens[0].target, item, sub, node)
                     if all(self.truth(self.eval(c, sub)) for c in gens[0].ifs):
                         out.append(self.eval(node.elt, sub))
                 kind = "set" if isinstance(node, ast.SetComp) else "list"
@@ -924,6 +925,10 @@ class Interp:
                 self.nofork -= 1
 
     @staticmethod
+    def _same_const(a, b) -> bool:
+        return isinstance(a, Const) and isinstance(b, Const) and type(a.value) is type(b.value) and a.value == b.value
+
+    @staticmethod
     def _is_logging(b: BoundExt) -> bool:
         if b.attr not in ("debug", "info", "warning", "error", "exception", "critical", "log"):
             return False
@@ -1180,6 +1185,12 @@ class Interp:
                 return SeqVal("list", [Const(k) for k in recv.items])
             if b.attr == "values":
                 return SeqVal("list", list(recv.items.values()))
+            if b.attr == "setdefault" and args and isinstance(args[0], Const) and not recv.open:
+                if args[0].value not in recv.items:
+                    recv.items[args[0].value] = args[1] if len(args) > 1 else NONE
+                return recv.items[args[0].value]
+            if b.attr == "pop" and args and isinstance(args[0], Const) and not recv.open and (args[0].value in recv.items or len(args) > 1):
+                return recv.items.pop(args[0].value) if args[0].value in recv.items else args[1]
             if b.attr in ("update", "setdefault", "pop", "clear"):
                 recv.open = True
                 return Unknown("dictop")
@@ -1197,8 +1208,23 @@ class Interp:
             if b.attr == "copy":
                 return SeqVal(recv.kind, list(recv.items))
             if b.attr == "add" and args:
-                recv.items.append(args[0])
+                if not any(self._same_const(args[0], x) for x in recv.items):
+                    recv.items.append(args[0])
                 return NONE
+            if b.attr == "update" and recv.kind == "set" and len(args) == 1 and isinstance(args[0], SeqVal):
+                for x in args[0].items:
+                    if not any(self._same_const(x, y) for y in recv.items):
+                        recv.items.append(x)
+                return NONE
+            if b.attr in ("issubset", "issuperset") and len(args) == 1 and isinstance(args[0], SeqVal) \
+                    and all(isinstance(x, Const) for x in [*recv.items, *args[0].items]):
+                a_, b_ = {x.value for x in recv.items}, {x.value for x in args[0].items}
+                return Const(a_ <= b_ if b.attr == "issubset" else a_ >= b_)
+            if b.attr == "discard" and args and isinstance(args[0], Const):
+                recv.items[:] = [x for x in recv.items if not self._same_const(args[0], x)]
+                return NONE
+            if b.attr == "pop" and recv.items and (recv.kind != "list" or not args):
+                return recv.items.pop()
         if self._is_logging(b):
             return NONE
         if b.attr.startswith("super."):
